@@ -149,7 +149,7 @@ func runFlushMust(c *Ctx, r *RuleRun) {
 	}
 	d := c.Dur()
 	n := 0
-	for _, f := range la.RoleRoots["F"] {
+	for _, f := range flusherLoops(c) {
 		fn := p.FnName(f)
 		var recvs []ssa.Instruction
 		eachInstr(f, func(ins ssa.Instruction) {
@@ -920,6 +920,13 @@ func runConfKeepAll(c *Ctx, r *RuleRun) {
 		}
 	}
 	if loop == nil {
+		// the list cleaned by the library: slices.DeleteFunc visits every record and drops those the predicate accepts
+		if call, drop, ok := a.deleteFuncDrop(f); ok {
+			r.Hold(fn, "whole list visited", p.Pos(instrPos(call)), "slices.DeleteFunc over the whole list")
+			r.Check(a.dropsAtOrBelowWatermark(drop), fn, "records above the watermark are kept", p.Pos(instrPos(call)), "a record is dropped only when its timestamp is at or below readMark.DoneUntil()",
+				"a record can be dropped without `ts <= read watermark` being established")
+			return
+		}
 		r.Undecided(fn, "cleanup loop", p.Pos(f.Pos()), "no loop that rebuilds the list")
 		return
 	}
